@@ -291,3 +291,36 @@ package v2
 //@   loop 2 invariant !deref(params.Muted) ==> len(res) == rangeindex1 + 1 - counttrue1("dynamic:field:groupMutedFunc") && !ret1("dynamic:field:groupMutedFunc")
 //@   noeffect dynamic:field:alertGroups API).alertFilter parseFilter receiverLabelsMap requestLogger predictAlertStatus AlertToOpenAPIAlert ModelLabelSetToAPILabelSet dynamic:field:groupMutedFunc Fingerprint
 //@   assigns nothing
+
+// ---- C13 / C02 / C03 / C15: how one alert is shown by GET /alerts and GET /alerts/groups: the alert's own (merged)
+// times, the receivers handed in (one reference each, in order), and the suppression status exactly as the marker
+// reported it: the silence ids, the inhibiting alerts, the muting intervals; the state is "suppressed" whenever the
+// group is muted and the marker's state otherwise.
+//@ func AlertToOpenAPIAlert
+//@   props C13 C02 C03 C15
+//@   requires source != nil
+//@   ensures [shape] result != nil && fresh(result) && result.Status != nil && fresh(result.Status) && result.Status.State != nil
+//@             && result.StartsAt != nil && result.EndsAt != nil && result.UpdatedAt != nil && result.Fingerprint != nil
+//@   ensures [the-alert_s-own-times] deref(result.StartsAt) == source.StartsAt && deref(result.EndsAt) == source.EndsAt && deref(result.UpdatedAt) == source.UpdatedAt
+//@   ensures [silenced-by-as-the-marker-says] status.SilencedBy != nil ==> result.Status.SilencedBy == status.SilencedBy
+//@   ensures [inhibited-by-as-the-marker-says] status.InhibitedBy != nil ==> result.Status.InhibitedBy == status.InhibitedBy
+//@   ensures [muted-by-as-the-group-marker-says] mutedBy != nil ==> result.Status.MutedBy == mutedBy
+//@   ensures [empty-lists-not-null] (status.SilencedBy == nil ==> len(result.Status.SilencedBy) == 0) && (status.InhibitedBy == nil ==> len(result.Status.InhibitedBy) == 0) && (mutedBy == nil ==> len(result.Status.MutedBy) == 0)
+//@   ensures [state-suppressed-when-muted-else-the-marker_s] deref(result.Status.State) == (len(mutedBy) > 0 ? "suppressed" : status.State)
+//@   ensures [one-reference-per-receiver-in-order] len(result.Receivers) == len(receivers) && (forall i int :: 0 <= i && i < len(receivers) ==> result.Receivers[i] != nil && result.Receivers[i].Name != nil && deref(result.Receivers[i].Name) == receivers[i])
+//@   loop 1 invariant rangeindex < len(receivers) && fresh(apiReceivers) && len(apiReceivers) == rangeindex + 1
+//@   loop 1 invariant forall i int :: 0 <= i && i < len(apiReceivers) ==> apiReceivers[i] != nil && fresh(apiReceivers[i]) && apiReceivers[i].Name != nil && fresh(apiReceivers[i].Name) && deref(apiReceivers[i].Name) == receivers[i]
+//@   noeffect ModelLabelSetToAPILabelSet
+//@   assigns nothing
+
+// the status shown for an alert is what the mute pipeline (silencer, inhibitor) writes for this alert's labels into a
+// marker of its own, read back for this alert's fingerprint
+//@ func predictAlertStatus
+//@   props C13 C02 C03
+//@   nosafe
+//@   at call dynamic:param:setAlertStatus assert [pipeline-run-on-this-alert_s-labels] arg1 == a.Labels && count("NewAlertMarker") == 1 && count("marker.WithContext") == 1
+//@   at call marker.WithContext assert [a-marker-of-its-own-in-the-context] arg1 == ret("NewAlertMarker")
+//@   at call AlertMarker).Status assert [read-back-from-that-marker-for-this-alert] arg0 == ret("NewAlertMarker") && arg1 == ret("LabelSet).Fingerprint") && count("dynamic:param:setAlertStatus") == 1
+//@   at call LabelSet).Fingerprint assert [this-alert_s-fingerprint] arg0 == a.Labels
+//@   ensures [the-marker_s-answer] result == ret("AlertMarker).Status")
+//@   noeffect dynamic:param:setAlertStatus NewAlertMarker marker.WithContext
